@@ -497,6 +497,19 @@ fn probe_family(which: &str) -> Result<(), Failure> {
             };
             (en(0), vec![], en(2), vec![])
         }
+        "regress:tuple-arity-prefix" => (
+            foo(vec![], vec![fld("a", Ty::Tuple(vec![p0(), p0()])), fld("b", Ty::Seq(SeqKind::Vec, Box::new(Ty::Tuple(vec![]))))]),
+            vec![],
+            foo(vec![], vec![fld("a", Ty::Tuple(vec![p0(), p0(), p0()])), fld("b", Ty::Seq(SeqKind::Vec, Box::new(Ty::Tuple(vec![p1(), p1()]))))]),
+            vec![],
+        ),
+        "regress:shared-wrapper-id" => (
+            // Receipt<Balance>{amount: Balance, tips: Vec<p1>} with Balance = p1 and Balance = p0
+            foo(vec![p("T")], vec![fld("amount", t0.clone()), fld("tips", Ty::Seq(SeqKind::Vec, Box::new(p1())))]),
+            vec![p1()],
+            foo(vec![p("T")], vec![fld("amount", t0.clone()), fld("tips", Ty::Seq(SeqKind::Vec, Box::new(p1())))]),
+            vec![p0()],
+        ),
         _ => (
             // types_equal:same-id-different-generic-view
             foo(vec![p("T")], vec![fld("a", Ty::Tuple(vec![t0.clone(), p0()]))]),
@@ -709,6 +722,16 @@ impl Property for C03 {
             signature: "types_equal:same-id-different-generic-view",
             what: "Foo<T>{a:(T,u8)} with T=u16 vs Foo<T>{a:(u16,u8)} with T=W<u8>",
             run: Box::new(|| probe_family("types_equal:same-id-different-generic-view")),
+        },
+        Probe {
+            signature: "regress:tuple-arity-prefix",
+            what: "Foo{a:(u8,u8), b:Vec<()>} vs Foo{a:(u8,u8,u8), b:Vec<(u16,u16)>} (seeded change C03b)",
+            run: Box::new(|| probe_family("regress:tuple-arity-prefix")),
+        },
+        Probe {
+            signature: "regress:shared-wrapper-id",
+            what: "Foo<T>{amount:T, tips:Vec<u16>} instantiated with u16 and with u8 (seeded change C03d)",
+            run: Box::new(|| probe_family("regress:shared-wrapper-id")),
         },
         Probe {
             signature: "types_equal:variant-index",
